@@ -214,13 +214,26 @@ def run(c):
               'topology operations (rectilinear incl. periodic, unitsquare square/triangle/mixed, tetrahedra, refined, boundary, interfaces, '
               'slices, take/compress, refined_by, unions, opposites) and synthetic nestings of all nine classes; per sequence every element (or a '
               'random subset) x random tails of child/edge transforms (length <= 4) plus foreign chains; a case is non-trivial when the chain has '
-              'at least two items; distinct by serialised sequence + query')
+              'at least two items; distinct by serialised sequence + query; derived axes: DimAxis(0,n,mod,periodic) x random sequences of refined / '
+              'explicit slices -> interface and boundary axes; sub-topologies (real code, exact chain oracle): pipelines of slice / refined / subset / take / '
+              'refined_by on rectilinear meshes of 1-3 dimensions with random periodic directions, all facets of .interfaces and .boundary; locate '
+              'histories (real code): 3-6 calls on the same topology objects (base, refined, slice, subset, take, with groups; structured with dyadic '
+              'node spacing or simplex meshes) with the same argument dependent geometry objects (scale, per-axis scale incl. negative, shift, affine, '
+              'curved), changing arguments / tol / eps / skip_missing / weights / maxdist, post-condition after every call')
     c.assumptions += ['transform items are compared structurally (interned singletons of the source are identified with their constructor arguments); '
                       'identity of equal items across construction routes is checked separately on the real objects',
                       'all coefficients of child/edge transforms are dyadic, so float arithmetic of the source is exact on the generated points',
                       'n-ary ChainedTransforms are modelled as right-nested binary chains (same lookup order and offsets)',
                       'ReorderedTransforms: argsort of a permutation is modelled as the inverse permutation',
                       'locate() is checked on the real code only (Newton iteration is numeric): order, tolerance, LocateError',
+                      'locate histories: a call that raises LocateError (or skips targets) although all targets are inside is allowed by the property; it is '
+                      'reported (no-failing-input-found) only when the same call on freshly built objects succeeds, i.e. when the outcome depends on earlier calls',
+                      'locate histories keep curved geometries away from the zone where the affine fit error of StructuredTopology._locate is within 25% of the '
+                      'tolerance (recorded known finding, re-run from its minimal input); the number of steered cases is counted',
+                      'sub-topology interfaces: the owner of an interface side is decided from the chain itself (level-0 cell = Index items, dyadic box of the '
+                      'items before the edge), exact rational arithmetic; root meshes are mesh.rectilinear with integer shape (geometry = index coordinates)',
+                      'the theorems on derived axes assume DimAx.ok (non-empty; modulus 0 iff never periodic; a periodic axis spans exactly one period), which '
+                      'is checked on every real axis generated; StructuredLine(i != 0, periodic) would violate it but is not reachable from mesh.*',
                       'the Lean lookup theorem covers Empty/Index/Masked/Reordered/Derived/UniformDerived/Chained nestings over reversible item classes '
                       '(simplex items with child+edge tails; all scale-type items with child tails); Plain and Structured sequences and tensor items with '
                       'edge tails are covered by the correspondence streams and the arithmetic theorems only (the general claim is false in >=4-D: known finding)']
@@ -235,6 +248,7 @@ def run(c):
     st.swaps()
     st.chains()
     st.sequences()
+    st.axes()
     st.containers()
     c.log('%d model requests generated' % len(b.lines))
     # the real-only streams (no model involved) run while the Lean driver works on the batch
